@@ -85,8 +85,10 @@ namespace igris
         static void serialize(Archive &keeper, const std::vector<T> &vec)
         {
             igris::serialize(keeper, (uint16_t)vec.size());
-            igris::serialize(keeper,
-                             igris::archive::data<T>{vec.data(), vec.size()});
+            // element by element, mirroring deserialize(): dumping the raw
+            // object bytes is only right for scalar elements
+            for (const auto &item : vec)
+                igris::serialize(keeper, item);
         }
 
         static void deserialize(Archive &keeper, std::vector<T> &vec)
